@@ -193,8 +193,6 @@ type evalOpts struct {
 	Light  bool   // clauses (1)-(6) only (no continuation, no second restart)
 }
 
-var evalSeq int
-
 // evaluate recovers img and judges it. It returns the recovery's own operation log as well.
 func (w *world) evaluate(img *Image, required int, o evalOpts) (*EvalResult, []vfs.Op) {
 	r := &EvalResult{Required: required, Stable: -1, Us: map[string]int{}}
@@ -203,7 +201,7 @@ func (w *world) evaluate(img *Image, required int, o evalOpts) (*EvalResult, []v
 		r.Us[name] += int(time.Since(t0).Microseconds())
 		t0 = time.Now()
 	}
-	evalSeq++
+	newEpoch()
 	dir := core.ScratchDir("c08img")
 	defer func() {
 		t0 = time.Now()
@@ -212,7 +210,6 @@ func (w *world) evaluate(img *Image, required int, o evalOpts) (*EvalResult, []v
 	}()
 	img.materialise(dir)
 	lap("materialise")
-	takeStrayPanics()
 
 	s := vfs.Begin(dir)
 	// the foreground's reads are gate points: in mode "eager" the writer drains whenever the startup
